@@ -381,6 +381,29 @@ func ruleC04NullAs(c *Ctx, rule string) {
 				why = "\"null\" is combined with the previous type(s) without a test that there is one: a schema that restricts no type becomes [\"null\"] and rejects every non-null value (pointer to interface, or to a TypeSchemas entry without type)"
 			}
 			c.R.Check(okExtend, rule, construct+":extends-a-type", c.pos(st), "\"null\" only extends an existing, non-empty type", why)
+			// (1b) ... and every non-empty list is extended: the length test is "at least one"
+			for _, g := range guardsOf(st) {
+				bo, ok := g.Cond.(*ssa.BinOp)
+				if !ok || !usesLen(g.Cond, 3) || !c.mentionsField(g.Cond, "Schema.Types", 5) {
+					continue
+				}
+				kc, isConst := bo.Y.(*ssa.Const)
+				op := bo.Op
+				if !isConst {
+					kc, isConst = bo.X.(*ssa.Const)
+					op = map[token.Token]token.Token{token.LSS: token.GTR, token.GTR: token.LSS, token.LEQ: token.GEQ, token.GEQ: token.LEQ, token.EQL: token.EQL, token.NEQ: token.NEQ}[op]
+				}
+				if !isConst {
+					continue
+				}
+				if !g.Pol {
+					op = map[token.Token]token.Token{token.LSS: token.GEQ, token.GTR: token.LEQ, token.LEQ: token.GTR, token.GEQ: token.LSS, token.EQL: token.NEQ, token.NEQ: token.EQL}[op]
+				}
+				kv, _ := constInt(kc)
+				// now: len(Types) op kv holds at the store
+				atLeastOne := op == token.GTR && kv == 0 || op == token.GEQ && kv == 1 || op == token.NEQ && kv == 0
+				c.R.Check(atLeastOne, rule, construct+":every-non-empty-list", c.pos(st), "a type list of any positive length gets \"null\"", fmt.Sprintf("\"null\" is added to a type list only when its length is %s %d: a TypeSchemas entry that writes its type as a one-element list is left without \"null\", and a nil pointer to that type, which marshals to null, is rejected", op, kv))
+			}
 			// (2) not withheld for a particular type
 			withheld := ""
 			for _, g := range guardsOf(st) {
